@@ -143,7 +143,9 @@ func c05(c *Ctx) {
 				ev := &p.Events[i]
 				if ev.Kind == core.EvCall && ev.Method != nil && ev.Method.Name() == "Read" && ev.Static == nil && ev.Depth == 0 {
 					n++
-					if p.Results[0] != p.X.ExtractOf(ev.Result, 0, nil) || p.Results[1] != p.X.ExtractOf(ev.Result, 1, nil) {
+					ie := p.X.ExtractOf(ev.Result, 1, nil)
+					sameErr := p.Results[1] == ie || (isEOFLoad(p.Results[1]) && knownEOF(p, ie)) // `return n, io.EOF` under [err == io.EOF]
+					if p.Results[0] != p.X.ExtractOf(ev.Result, 0, nil) || !sameErr {
 						ok, why = false, "flateReadWrapper.Read alters the inflater's result at "+c.P.Pos(p.Ret.Pos())+" (returns "+p.Results[0].String()+", "+p.Results[1].String()+")"
 					}
 				}
